@@ -45,6 +45,13 @@ FLOORS = {'round_trip_ok': 0.402, 'bytes_backslash': 0.034, 'policy_doc': 0.07, 
 
 serialization.register_constant('harness.vuni.things', 'CONST_OBJ', compare_by_identity=True)
 serialization.register_dict_based_object(things.DictObj)
+# registrations the library rejects (a caller may well swallow the error and carry on); values that
+# are merely hash-equal to these constants must stay unserializable afterwards
+for _name in ('HALF', 'ADAM', 'PAIR34'):
+  try:
+    serialization.register_constant('harness.vuni.things', _name, compare_by_identity=False)
+  except ValueError:
+    pass
 serialization.register_dict_based_object(things.DictObjNew)
 
 
@@ -54,12 +61,13 @@ def strategy_(draw, tier):
       max_nodes=10, min_nodes=2, leaf_profile='serializable', bts=('Config', 'Partial', 'ArgFactory'),
       kinds=['B', 'B', 'Bpos', 'list', 'tuple', 'dict', 'kdict', 'kdict', 'ddict', 'nt', 'set', 'fset', 'TV',
              'ltuple', 'ntuple'],
-      fns=['things:f2', 'things:h1', 'things:Base', 'things:LeafCls', 'things:DataLoader', 'things:data_loader'],
+      fns=['things:f2', 'things:h1', 'things:Base', 'things:LeafCls', 'things:DataLoader', 'things:data_loader',
+           'things:SubCM.make', 'things:BaseCM.make'],
       root_kinds=['B', 'B', 'list', 'dict', 'tuple', 'Bpos'], p_alias=0.75, tags=True))
   mode = draw(st.sampled_from(['roundtrip', 'roundtrip', 'roundtrip', 'unserializable', 'policy']))
   case = {'recipe': recipe, 'mode': mode}
   if mode == 'unserializable':
-    case['bad'] = draw(st.sampled_from(['things:LAMBDA', 'complex', 'localobj']))
+    case['bad'] = draw(st.sampled_from(['things:LAMBDA', 'complex', 'localobj', 'fraction_half', 'strsub', 'tupsub']))
   if mode == 'policy':
     case['policy'] = draw(st.sampled_from(['allow_vuni', 'deny_all', 'deny_value', 'allow_all']))
     case['mutation'] = draw(st.sampled_from(['none', 'canary_fn', 'canary_cls', 'os_system', 'type_swap',
@@ -167,7 +175,10 @@ def check(case):
   root, objs = dags.build(case['recipe'])
   mode = case['mode']
   if mode == 'unserializable':
-    bad = {'things:LAMBDA': things.LAMBDA, 'complex': 3 + 4j, 'localobj': type('Local', (), {})()}[case['bad']]
+    import fractions
+    bad = {'things:LAMBDA': things.LAMBDA, 'complex': 3 + 4j, 'localobj': type('Local', (), {})(),
+           'fraction_half': fractions.Fraction(1, 2), 'strsub': things.StrSub('adam'),
+           'tupsub': things.TupSub((3, 4))}[case['bad']]
     # put the bad leaf somewhere reachable
     if isinstance(root, fdl.Buildable):
       try:
